@@ -45,11 +45,20 @@ def legacy_leading_zero_number(case, signature, detail):
 
 @known.matcher
 def xid_outside_regex_w(case, signature, detail):
-    """D23: an identifier contains a character that is XID_Continue/XID_Start but not \\w (or vice versa)"""
+    """D23: an identifier contains a character that is XID_Start/XID_Continue but not matched by \\w"""
     cp = detail.get("cpython") if isinstance(detail, dict) else None
-    if not cp or cp[0] != "NAME" or not signature.endswith("NAME->NAME") and not signature.startswith(("string:NAME", "kind:NAME")):
+    if cp:
+        if cp[0] != "NAME" or not (signature.endswith("NAME->NAME") or signature.startswith(("string:NAME", "kind:NAME"))):
+            return False
+        return re.fullmatch(r"\w+", cp[1]) is None and cp[1].isidentifier()
+    # other properties (C01): the source, as CPython tokenizes it, contains such an identifier
+    try:
+        for t in pytok.generate_tokens(io.StringIO(case["src"]).readline):
+            if t.type == pytok.NAME and re.fullmatch(r"\w+", t.string) is None:
+                return True
+    except Exception:
         return False
-    return re.fullmatch(r"\w+", cp[1]) is None and cp[1].isidentifier()
+    return False
 
 
 STRUCT = {"NEWLINE", "INDENT", "DEDENT", "ENDMARKER"}
